@@ -1,6 +1,6 @@
 SPECIFICATION Spec
 CONSTANTS NStrat = 2
           Kinds <- MCKinds
-          RaiseEarly = FALSE
-INVARIANTS RaceOK GrammarOK OrderOK
+          RaiseEarly = TRUE
+INVARIANT RaceOK
 CHECK_DEADLOCK FALSE
